@@ -471,6 +471,7 @@ def run_job_named(job):
         events = list(job['events'])
         skipped = 0
         i = 0
+        sweep = job.get('drain', True) and any(e.get('out') in ('failure', 'invalid') or e['ev'] in ('TickFault', 'Reload') for e in events)
         while True:
             if i >= len(events):
                 if not job.get('drain', True):
@@ -487,6 +488,11 @@ def run_job_named(job):
                 if w.inflight and len(steps) < 400:
                     u = w.inflight[0]
                     events.append({'ev': 'Reply', 'alg': u['alg'], 't': u['t'], 'out': 'success', 'new': []})
+                elif sweep and len(steps) < 300:
+                    # at quiescence after a history with withdrawals, faults or reloads: everything is requested once
+                    # more -- whatever the bookkeeping remembers wrongly now keeps a unit from being released or recorded
+                    sweep = False
+                    events.append({'ev': 'Run', 'S': list(w.algs), 'T': list(w.targets)})
                 else:
                     break
             e = events[i]
